@@ -96,4 +96,8 @@ pub struct KChild {
     /// Carried out by the connect seam just before it answers, i.e. at a scheduled point.
     #[serde(default)]
     pub file_ops: Vec<(usize, String, String)>,
+    /// value of the `TZ` environment variable (None = "UTC"): the client reads the local UTC
+    /// offset once at start and formats times with it
+    #[serde(default)]
+    pub tz: Option<String>,
 }
